@@ -445,10 +445,16 @@ class AsyncFIFO(Elaboratable, FIFOInterface):
 
         w_full  = Signal()
         r_empty = Signal()
+        if self._ctr_bits >= 2:
+            m.d.comb += [
+                w_full.eq((produce_w_gry[-1]  != consume_w_gry[-1]) &
+                          (produce_w_gry[-2]  != consume_w_gry[-2]) &
+                          (produce_w_gry[:-2] == consume_w_gry[:-2])),
+            ]
+        else:
+            # A queue with a single entry has one-bit counters: it is full when they differ.
+            m.d.comb += w_full.eq(produce_w_gry != consume_w_gry)
         m.d.comb += [
-            w_full.eq((produce_w_gry[-1]  != consume_w_gry[-1]) &
-                      (produce_w_gry[-2]  != consume_w_gry[-2]) &
-                      (produce_w_gry[:-2] == consume_w_gry[:-2])),
             r_empty.eq(consume_r_gry == produce_r_gry),
         ]
 
